@@ -5,7 +5,9 @@ import (
 	"errors"
 )
 
-var encodeIndent = 0
+// maxBERDepth bounds the nesting of constructed encodings: EncodeTo re-buffers every
+// level, so unbounded nesting costs quadratic time and memory (and unbounded stack).
+const maxBERDepth = 64
 
 type asn1Object interface {
 	EncodeTo(writer *bytes.Buffer) error
@@ -17,8 +19,6 @@ type asn1Structured struct {
 }
 
 func (s asn1Structured) EncodeTo(out *bytes.Buffer) error {
-	//fmt.Printf("%s--> tag: % X\n", strings.Repeat("| ", encodeIndent), s.tagBytes)
-	encodeIndent++
 	inner := new(bytes.Buffer)
 	for _, obj := range s.content {
 		err := obj.EncodeTo(inner)
@@ -26,7 +26,6 @@ func (s asn1Structured) EncodeTo(out *bytes.Buffer) error {
 			return err
 		}
 	}
-	encodeIndent--
 	out.Write(s.tagBytes)
 	encodeLength(out, inner.Len())
 	out.Write(inner.Bytes())
@@ -47,8 +46,6 @@ func (p asn1Primitive) EncodeTo(out *bytes.Buffer) error {
 	if err = encodeLength(out, p.length); err != nil {
 		return err
 	}
-	//fmt.Printf("%s--> tag: % X length: %d\n", strings.Repeat("| ", encodeIndent), p.tagBytes, p.length)
-	//fmt.Printf("%s--> content length: %d\n", strings.Repeat("| ", encodeIndent), len(p.content))
 	out.Write(p.content)
 
 	return nil
@@ -61,11 +58,13 @@ func ber2der(ber []byte) ([]byte, error) {
 	//fmt.Printf("--> ber2der: Transcoding %d bytes\n", len(ber))
 	out := new(bytes.Buffer)
 
-	obj, _, err := readObject(ber, 0)
+	obj, _, err := readObject(ber, 0, 0)
 	if err != nil {
 		return nil, err
 	}
-	obj.EncodeTo(out)
+	if err := obj.EncodeTo(out); err != nil {
+		return nil, err
+	}
 
 	// if offset < len(ber) {
 	//	return nil, fmt.Errorf("ber2der: Content longer than expected. Got %d, expected %d", offset, len(ber))
@@ -132,17 +131,28 @@ func encodeLength(out *bytes.Buffer, length int) (err error) {
 	return
 }
 
-func readObject(ber []byte, offset int) (asn1Object, int, error) {
+var errBERTruncated = errors.New("ber2der: BER data is truncated")
+
+func readObject(ber []byte, offset int, depth int) (asn1Object, int, error) {
 	//fmt.Printf("\n====> Starting readObject at offset: %d\n\n", offset)
+	if depth > maxBERDepth {
+		return nil, 0, errors.New("ber2der: BER data is nested too deeply")
+	}
+	if offset >= len(ber) {
+		return nil, 0, errBERTruncated
+	}
 	tagStart := offset
 	b := ber[offset]
 	offset++
 	tag := b & 0x1F // last 5 bits
 	if tag == 0x1F {
 		tag = 0
-		for ber[offset] >= 0x80 {
+		for offset < len(ber) && ber[offset] >= 0x80 {
 			tag = tag*128 + ber[offset] - 0x80
 			offset++
+		}
+		if offset >= len(ber) {
+			return nil, 0, errBERTruncated
 		}
 		tag = tag*128 + ber[offset] - 0x80
 		offset++
@@ -158,6 +168,9 @@ func readObject(ber []byte, offset int) (asn1Object, int, error) {
 		}
 	*/
 	// read length
+	if offset >= len(ber) {
+		return nil, 0, errBERTruncated
+	}
 	var length int
 	l := ber[offset]
 	offset++
@@ -166,6 +179,9 @@ func readObject(ber []byte, offset int) (asn1Object, int, error) {
 		numberOfBytes := (int)(l & 0x7F)
 		if numberOfBytes > 4 { // int is only guaranteed to be 32bit
 			return nil, 0, errors.New("ber2der: BER tag length too long")
+		}
+		if offset+numberOfBytes > len(ber) {
+			return nil, 0, errBERTruncated
 		}
 		if numberOfBytes == 4 && (int)(ber[offset]) > 0x7F {
 			return nil, 0, errors.New("ber2der: BER tag length is negative")
@@ -187,7 +203,7 @@ func readObject(ber []byte, offset int) (asn1Object, int, error) {
 
 	//fmt.Printf("--> length        : %d\n", length)
 	contentEnd := offset + length
-	if contentEnd > len(ber) {
+	if length < 0 || contentEnd > len(ber) {
 		return nil, 0, errors.New("ber2der: BER tag length is more than available data")
 	}
 	//fmt.Printf("--> content start : %d\n", offset)
@@ -208,7 +224,7 @@ func readObject(ber []byte, offset int) (asn1Object, int, error) {
 		for (offset < contentEnd) || indefinite {
 			var subObj asn1Object
 			var err error
-			subObj, offset, err = readObject(ber, offset)
+			subObj, offset, err = readObject(ber, offset, depth+1)
 			if err != nil {
 				return nil, 0, err
 			}
